@@ -43,7 +43,8 @@ ID = "C07"
 RULE = (
     "instances drawn from rng([seed, block, case]) for every legal cell (7 tests x {Z,Y} x add_capacitance x add_inductance; "
     "'-inv' tests always with L; 44 cells): grid 3..20 points/decade (30% jittered) over 1.5..10 decades anywhere in "
-    "1e-7..1e12 Hz, ascending or descending input, log_F_ext in [-1,1] (incl. 0 and +-1), num_RC from 2 up to 3 (complex) "
+    "1e-7..1e12 Hz, ascending or descending input, log_F_ext in [-1,1] (incl. 0 and +-1; plus, per case and linear cell, one narrow 1..1.7-decade grid with log_F_ext in "
+    "[-1,-0.5] whose tau limits cross so that the documented tau_k descend), num_RC from 2 up to 3 (complex) "
     "or 2 (real/imaginary) time constants per decade with #unknowns <= 0.75 #equations, variables with sign patterns "
     "(all +, all -, alternating, random), 0..6 decades spread (in contribution or in raw parameter space), overall scale "
     "1e-4..1e4, 8% with exact zeros; cnls: parameters within a decade of its start values, random signs of R_k|C_k. "
@@ -125,7 +126,7 @@ def gen_instance(rng, cell, tier, crossing=False):
     ppd = int(rng.integers(3, 21))
     dec = float(rng.uniform(1.5, 10.0) if thorough else rng.uniform(2.0, 8.0))
     if crossing:
-        dec = float(rng.uniform(1.0, 1.7))
+        dec = float(rng.uniform(1.0, 1.5))
         ppd = int(rng.integers(6, 21))
     nmax_pts = 60 if cn else (160 if thorough else 110)
     N = max(min(int(round(ppd * dec)) + 1, nmax_pts), 7)
@@ -153,7 +154,8 @@ def gen_instance(rng, cell, tier, crossing=False):
     dec = float(logf[-1] - logf[0])
     if crossing:
         # tau range of at least 0.25 decades after the crossing (log10(tau_max/tau_min) = dec + 2x <= -0.25)
-        x = float(rng.uniform(-1.0, min(-0.5, -(dec + 0.25) / 2)))
+        hi = min(-0.5, -(dec + 0.25) / 2)
+        x = float(rng.uniform(-1.0, hi)) if hi > -1.0 else -1.0
     elif dec + 2 * x < 1.0:
         x = float((1.0 - dec) / 2 + 0.01)
     tdec = abs(dec + 2 * x)
@@ -396,9 +398,10 @@ def run_case(case):
     rng = np.random.default_rng(case["seed"])
     tier = case.get("tier", "quick")
     if case["kind"] == "linear":
-        todo = [c for c in LIN_CELLS for _ in range(case["per_cell"])]
+        # regular instances first (their random stream is unchanged), then one instance per cell with crossing tau limits
+        todo = [(c, False) for c in LIN_CELLS for _ in range(case["per_cell"])] + [(c, True) for c in LIN_CELLS for _ in range(case.get("crossing_per_cell", 1))]
     else:
-        todo = [tuple(c) for c in case["cells"]]
+        todo = [(tuple(c), False) for c in case["cells"]]
     viol, keys, stats, maxobs = [], [], {}, {}
     evals = 0
     sample = None
@@ -410,8 +413,8 @@ def run_case(case):
         if v is not None and np.isfinite(v):
             maxobs[name] = max(maxobs.get(name, 0.0), float(v))
 
-    for cell in todo:
-        inst = gen_instance(rng, tuple(cell), tier)
+    for cell, crossing in todo:
+        inst = gen_instance(rng, tuple(cell), tier, crossing)
         if case["kind"] == "cnls":
             # cnls costs ~1 s per call: the precondition is applied in the generator (redraw until the harness's own
             # statistics put the instance inside the gate; the library is not consulted)
@@ -424,6 +427,11 @@ def run_case(case):
         cname = out["cell"]
         tname = f"{inst['test']}/{'Y' if inst['adm'] else 'Z'}"
         cnt(f"run:{cname}")
+        if out["crossed"]:
+            cnt("crossing_tau_limits")
+            cnt(f"crossing_tau_limits:{tname}")
+            if out["inside"]:
+                cnt("crossing_tau_limits:inside_gate")
         for t in out["tags"]:
             cnt(f"regime:{t}")
         viol.extend(out["viol"])
@@ -433,6 +441,9 @@ def run_case(case):
             continue
         mx(f"tau:{tname}", o["tau"])
         res_all = max(o["res"], o.get("res_own", 0.0))
+        if out["crossed"] and out["inside"] and not out.get("finding_cell"):
+            mx(f"res:crossing:{tname}", res_all)
+            mx(f"par:crossing:{tname}", o.get("par"))
         if out["inside"]:
             evals += 1
             cnt(f"inside:{cname}")
@@ -467,6 +478,12 @@ def finalize(agg):
         cn = cell_name(*cell)
         if st.get(f"inside:{cn}", 0) < need:
             inc.append(f"cell {cn}: only {st.get(f'inside:{cn}', 0)} instances inside the conditioning gate (need {need})")
+    for t in LINEAR_TESTS:
+        for rep in ("Z", "Y"):
+            if st.get(f"crossing_tau_limits:{t}/{rep}", 0) < 20:
+                inc.append(f"{t}/{rep}: only {st.get(f'crossing_tau_limits:{t}/{rep}', 0)} instances with crossing time-constant limits (need 20)")
+    if st.get("crossing_tau_limits:inside_gate", 0) < 20:
+        inc.append(f"only {st.get('crossing_tau_limits:inside_gate', 0)} crossing-limit instances inside the conditioning gate (need 20)")
     for cell in CNLS_CELLS:
         cn = cell_name(*cell)
         if st.get(f"inside:{cn}", 0) < 3:
